@@ -70,6 +70,12 @@ where
             entity_identifiers.capacity(),
         );
 
+        // While the columns are being overwritten the archetype is treated as empty, so that a
+        // panic in a component's `Clone` or `Drop` implementation leaves it empty (leaking the
+        // components) rather than with rows that are only partly valid.
+        let length = self.length;
+        self.length = 0;
+
         // SAFETY: `self.components` contains the valid raw parts for a `Vec<C>` for each `C`
         // identified by `self.identifier`, with length `self.length`. `source.components` contains
         // the valid raw parts for a `Vec<C>` for each `C` identified by `self.identifier`, with
@@ -78,7 +84,7 @@ where
         unsafe {
             R::clone_from_components(
                 &mut self.components,
-                self.length,
+                length,
                 &source.components,
                 source.length,
                 self.identifier.iter(),
